@@ -25,14 +25,14 @@ EXTENDS Naturals, Sequences, FiniteSets, TLC, Json
 CONSTANTS MaxObj, MaxSteps,
           CreateClasses,      \* classes Create may instantiate
           QueryClasses,       \* classes Query may ask for
-          AllowClear, AllowRelate, AllowSweep,
+          AllowClear, AllowRelate, AllowSweep, AllowQueryX,
           Hist,               \* TRUE = keep the history variable (generator configs)
           PopIdOfNone, StaleRelationIndex, DupSubclassList, StrongExprTable
 
-VARIABLES next, cls, roots, fld, dead, tracked, facts, pinned,      \* R (+ pinned: I-level holder)
+VARIABLES next, cls, roots, fld, dead, deadR, tracked, facts, pinned,      \* R (+ pinned: I-level holder; dead = as implemented, deadR = as the property demands)
           nodes, freeIdx, instIdx, classIdx, relIndex, edges,       \* I
           lastQ, lastRel, steps, h
-vars == <<next, cls, roots, fld, dead, tracked, facts, pinned, nodes, freeIdx, instIdx, classIdx, relIndex, edges,
+vars == <<next, cls, roots, fld, dead, deadR, tracked, facts, pinned, nodes, freeIdx, instIdx, classIdx, relIndex, edges,
           lastQ, lastRel, steps, h>>
 
 AllClasses == {"Base", "Mid", "Leaf", "Other", "DA", "DB1", "DB2", "DD", "P", "C"}
@@ -58,6 +58,14 @@ Freed(rt) == LET U == Unreach(rt)
                  kept == Reach({ x \in U : onc(x) }, inU, U)
              IN U \ kept
 Holders == roots \cup pinned
+\* the same with the reference-level (R) notion of death: only the user's references count
+AliveR == Objs \ deadR
+UnreachR(rt) == AliveR \ Reach(rt \cap AliveR, Refs, AliveR)
+FreedR(rt) == LET U == UnreachR(rt)
+                  inU == { e \in Refs : e[1] \in U /\ e[2] \in U }
+                  onc(x) == x \in Reach({ t \in U : <<x, t>> \in inU }, inU, U)
+                  kept == Reach({ x \in U : onc(x) }, inU, U)
+              IN U \ kept
 
 Idx == DOMAIN nodes
 Registered(o) == \E i \in Idx : nodes[i] = o
@@ -70,7 +78,7 @@ PopFree == IF freeIdx # <<>> THEN SubSeq(freeIdx, 1, Len(freeIdx) - 1) ELSE free
 Log(rec) == h' = IF Hist THEN Append(h, rec) ELSE h
 
 EmptyClassIdx == [c \in AllClasses |-> <<>>]
-Init == /\ next = 1 /\ cls = <<>> /\ roots = {} /\ fld = {} /\ dead = {} /\ tracked = {} /\ facts = {} /\ pinned = {}
+Init == /\ next = 1 /\ cls = <<>> /\ roots = {} /\ fld = {} /\ dead = {} /\ deadR = {} /\ tracked = {} /\ facts = {} /\ pinned = {}
         /\ nodes = <<>> /\ freeIdx = <<>> /\ instIdx = {} /\ classIdx = EmptyClassIdx /\ relIndex = {} /\ edges = {}
         /\ lastQ = <<>> /\ lastRel = <<>> /\ steps = 0 /\ h = <<>>
 
@@ -106,29 +114,31 @@ Create(c) ==
   /\ next <= MaxObj
   /\ next' = next + 1 /\ cls' = Append(cls, c) /\ roots' = roots \cup {next} /\ tracked' = tracked \cup {next}
   /\ SetG(AddNode(G, next, c))
-  /\ UNCHANGED <<fld, dead, facts, pinned, lastQ, lastRel>>
-  /\ Log([a |-> "create", c |-> c, o |-> next, live |-> Alive \cup {next}])
+  /\ UNCHANGED <<fld, dead, deadR, facts, pinned, lastQ, lastRel>>
+  /\ Log([a |-> "create", c |-> c, o |-> next, live |-> Alive \cup {next}, liveR |-> AliveR \cup {next}])
 
 Drop(o) ==
   /\ o \in roots
   /\ roots' = roots \ {o}
   /\ dead' = dead \cup Freed((roots \ {o}) \cup pinned)
+  /\ deadR' = deadR \cup FreedR(roots \ {o})
   /\ UnchangedG /\ UNCHANGED <<next, cls, fld, tracked, facts, pinned, lastQ, lastRel>>
-  /\ Log([a |-> "drop", o |-> o, live |-> Objs \ dead'])
+  /\ Log([a |-> "drop", o |-> o, live |-> Objs \ dead', liveR |-> Objs \ deadR'])
 
 Collect ==
-  /\ Unreach(Holders) # {}
+  /\ (Unreach(Holders) # {} \/ UnreachR(roots) # {})
   /\ dead' = dead \cup Unreach(Holders)
+  /\ deadR' = deadR \cup UnreachR(roots)
   /\ UnchangedG /\ UNCHANGED <<next, cls, roots, fld, tracked, facts, pinned, lastQ, lastRel>>
-  /\ Log([a |-> "collect", live |-> Objs \ dead'])
+  /\ Log([a |-> "collect", live |-> Objs \ dead', liveR |-> Objs \ deadR'])
 
 \* SymbolGraph().remove_dead_instances()
 Sweep ==
   /\ AllowSweep
   /\ \E i \in Idx : nodes[i] \in dead
   /\ SetG(SweepG(G, dead))
-  /\ UNCHANGED <<next, cls, roots, fld, dead, tracked, facts, pinned, lastQ, lastRel>>
-  /\ Log([a |-> "sweep", live |-> Alive])
+  /\ UNCHANGED <<next, cls, roots, fld, dead, deadR, tracked, facts, pinned, lastQ, lastRel>>
+  /\ Log([a |-> "sweep", live |-> Alive, liveR |-> AliveR])
 
 \* an(entity(let(T, None))).evaluate(): sweep, then walk the per-class wrapper lists
 QueryBag(g, T) == LET sl == SubList(T) IN
@@ -147,16 +157,41 @@ Query(T) ==
      IN /\ SetG(g)
         /\ lastQ' = <<T, bag, C13At(T, bag)>>
         /\ pinned' = IF StrongExprTable THEN pinned \cup { o \in Objs : bag[o] > 0 } ELSE pinned
-        /\ Log([a |-> "query", c |-> T, live |-> Alive,
+        /\ Log([a |-> "query", c |-> T, live |-> Alive, liveR |-> AliveR,
                 must |-> QueryR(T),                                              \* each exactly once
                 may |-> { o \in Alive \ tracked : cls[o] \in SubStar(T) }])      \* survivors of clear(): unspecified
-  /\ UNCHANGED <<next, cls, roots, fld, dead, tracked, facts, lastRel>>
+  /\ UNCHANGED <<next, cls, roots, fld, dead, deadR, tracked, facts, lastRel>>
 
 \* C14 at the moment of the assertion: the three relations are in the graph and the fields agree
 C14At(g, f, p, c) ==
   LET abs == { <<e[1], g.nodes[e[2]], g.nodes[e[3]]>> : e \in { x \in g.edges : x[2] \in DOMAIN g.nodes /\ x[3] \in DOMAIN g.nodes } }
       want == {<<"works_for", p, c>>, <<"member_of", p, c>>, <<"members", c, p>>}
   IN want \subseteq abs /\ want \subseteq f
+\* an(entity(let(T, [every instance of T the user holds]))).evaluate(): sweeps like every evaluation; the values of the
+\* explicit domain are cached in the variable, which the process-wide expression tables keep (StrongExprTable)
+QueryX(T) ==
+  /\ AllowQueryX
+  /\ LET g == SweepG(G, dead)
+         dom == { o \in roots : cls[o] \in SubStar(T) }
+     IN /\ SetG(g)
+        /\ pinned' = IF StrongExprTable THEN pinned \cup dom ELSE pinned
+        /\ Log([a |-> "queryx", c |-> T, live |-> Alive, liveR |-> AliveR, dom |-> dom])
+  /\ UNCHANGED <<next, cls, roots, fld, dead, deadR, tracked, facts, lastQ, lastRel>>
+
+\* it = an(entity(x, x.name != "")).evaluate() with x = let(T, None); next(it); del it - a partially consumed evaluation.
+\* Only the pulled prefix of the domain (here: its first element) is cached by the variable.
+QueryFirst(T) ==
+  /\ AllowQueryX
+  /\ LET g == SweepG(G, dead)
+         sl == SubList(T)
+         firsts == { k \in DOMAIN sl : g.cidx[sl[k]] # <<>> }
+         first == IF firsts = {} THEN {}
+                  ELSE LET k == CHOOSE m \in firsts : \A j \in firsts : m <= j IN { g.nodes[g.cidx[sl[k]][1]] }
+     IN /\ SetG(g)
+        /\ pinned' = IF StrongExprTable THEN pinned \cup first ELSE pinned
+        /\ Log([a |-> "queryfirst", c |-> T, live |-> Alive, liveR |-> AliveR, first |-> first])
+  /\ UNCHANGED <<next, cls, roots, fld, dead, deadR, tracked, facts, lastQ, lastRel>>
+
 \* p.works_for = c  (descriptor-managed; WorksFor is a sub-property of MemberOf whose inverse is Member)
 Ensure(g, o) == IF \E i \in DOMAIN g.nodes : g.nodes[i] = o THEN g ELSE AddNode(g, o, cls[o])
 IdxIn(g, o) == CHOOSE i \in DOMAIN g.nodes : g.nodes[i] = o
@@ -180,17 +215,17 @@ Relate(p, c) ==
         /\ facts' = facts \cup {<<"works_for", p, c>>, <<"member_of", p, c>>, <<"members", c, p>>}
         /\ tracked' = tracked \cup {p, c}
         /\ lastRel' = <<p, c, C14At(g2, fld \cup wrote, p, c)>>
-        /\ Log([a |-> "relate", p |-> p, c |-> c, live |-> Alive,
+        /\ Log([a |-> "relate", p |-> p, c |-> c, live |-> Alive, liveR |-> AliveR,
                 facts |-> {<<"works_for", p, c>>, <<"member_of", p, c>>, <<"members", c, p>>}])
-  /\ UNCHANGED <<next, cls, roots, dead, pinned, lastQ>>
+  /\ UNCHANGED <<next, cls, roots, dead, deadR, pinned, lastQ>>
 
 \* SymbolGraph().clear(); SymbolGraph()
 Clear ==
   /\ AllowClear /\ tracked # {}
   /\ tracked' = {} /\ facts' = {}
   /\ nodes' = <<>> /\ freeIdx' = <<>> /\ instIdx' = {} /\ classIdx' = EmptyClassIdx /\ relIndex' = {} /\ edges' = {}
-  /\ UNCHANGED <<next, cls, roots, fld, dead, pinned, lastQ, lastRel>>
-  /\ Log([a |-> "clear", live |-> Alive])
+  /\ UNCHANGED <<next, cls, roots, fld, dead, deadR, pinned, lastQ, lastRel>>
+  /\ Log([a |-> "clear", live |-> Alive, liveR |-> AliveR])
 
 Next == /\ steps < MaxSteps /\ steps' = steps + 1
         /\ \/ \E c \in CreateClasses : Create(c)
@@ -198,6 +233,8 @@ Next == /\ steps < MaxSteps /\ steps' = steps + 1
            \/ Collect
            \/ Sweep
            \/ \E T \in QueryClasses : Query(T)
+           \/ \E T \in QueryClasses : QueryX(T)
+           \/ \E T \in QueryClasses : QueryFirst(T)
            \/ \E p \in roots, c \in roots : Relate(p, c)
            \/ Clear
 Spec == Init /\ [][Next]_vars
@@ -214,6 +251,7 @@ C20reg == NoDeadNodes => /\ instIdx \subseteq Idx
                          /\ \A e \in edges : e[2] \in Idx /\ e[3] \in Idx
 C20life == Unreach(roots) = {} => Unreach(Holders) = {}      \* trivially true; the real statement is:
 C20pin == pinned \subseteq Reach(roots, Refs, Alive)          \* krrood pins nothing the user cannot reach
+C20same == dead = deadR                                       \* an instance dies exactly when the user's references say so
 TypeOK == /\ dead \subseteq Objs /\ roots \subseteq Objs /\ roots \cap dead = {}
           /\ \A i \in Idx : nodes[i] \in Objs
           /\ \A c \in AllClasses : \A j \in DOMAIN classIdx[c] : classIdx[c][j] \in Idx
